@@ -5,7 +5,8 @@
    Control/Source/Binary::wrap_and_sort.
 
    The shipped code violates C07 in several places (see docs/cones/C07.md).  Each repair is a
-   flag of [variant]; [fixed] has all of them, [shipped] none.  The theorems are about [fixed],
+   flag of [variant]; [fixed] has all of them (the first six are in /repo, C07-21 / C07-22 are
+   proposed), [shipped] none.  The theorems are about [fixed],
    the _refuted lemmas about [shipped]; the runner evaluates [fixed] unless
    VERIF_C07_MODEL=shipped.
 
@@ -29,10 +30,12 @@ Record variant := mk_variant {
   v_fmt_lines : bool;   (* the formatter's output is lexed line by line                              (C07-formatter-lines) *)
   v_hash : bool;        (* rebuild_value keeps a '#' first line / a comment on the line kind it had  (C07-hash-lines) *)
   v_terminate : bool;   (* Deb822::wrap_and_sort terminates the last line of every paragraph and of the result (C07-terminate-paragraphs) *)
-  v_typo : bool         (* format_field: Build-Conflicts-Arch                                        (C07-build-conflicts-arch) *)
+  v_typo : bool;        (* format_field: Build-Conflicts-Arch                                        (C07-build-conflicts-arch) *)
+  v_upl_hash : bool;    (* format_field: an Uploaders piece that starts with '#' stays on the line before it (C07-21-uploaders-hash-piece) *)
+  v_rel_keep : bool     (* format_field: a relationship field the relations parser rejects is left as it is  (C07-22-unparsable-relation-kept) *)
 }.
-Definition fixed : variant := mk_variant true true true true true true.
-Definition shipped : variant := mk_variant false false false false false false.
+Definition fixed : variant := mk_variant true true true true true true true true.
+Definition shipped : variant := mk_variant false false false false false false false false.
 
 Inductive indentation := FieldNameLength | Spaces (n : N).
 
@@ -140,6 +143,15 @@ Definition split_on (d : char) (s : str) : list str := split_on_go d [] s.
 
 (* the "Uploaders" arm of format_field *)
 Definition fmt_uploaders (v : str) : str := join [44%N; 10%N] (map trim (split_on 44%N v)).
+(* ... with C07-21: a piece that starts with '#' is joined with ", " (an indented line that starts
+   with '#' is a comment line) *)
+Definition upl_sep (next : str) : str := if starts_with_hash next then [44%N; 32%N] else [44%N; 10%N].
+Fixpoint join_upl (l : list str) : str :=
+  match l with
+  | [] => []
+  | x :: r => match r with [] => x | y :: _ => x ++ upl_sep y ++ join_upl r end
+  end.
+Definition fmt_uploaders_h (v : str) : str := join_upl (map trim (split_on 44%N v)).
 
 Section Variant.
 Variable V : variant.
@@ -305,9 +317,18 @@ Definition doc_ws (psort : option (tree -> tree -> comparison)) (pfun : option (
 (* format_field; [rel v] stands for value.parse::<Relations>().unwrap().wrap_and_sort().to_string()
    (the relations cone's business: a parameter here; it panics when the value does not parse) *)
 Definition format_field (rel : str -> res str) (name value : str) : res str :=
-  if str_eqb name k_Uploaders then Ok (fmt_uploaders value)
+  if str_eqb name k_Uploaders then Ok (if v_upl_hash V then fmt_uploaders_h value else fmt_uploaders value)
   else if existsb (str_eqb name) (relation_fields (v_typo V)) then rel value
   else Ok value.
+(* the relationship arm with C07-22: when the relations parser reports errors (Panic 20 of the
+   [rel] parameter: assert!(errors.is_empty())) the value is returned as it is *)
+Definition rel_arm (rel : str -> res str) (value : str) : res str :=
+  if v_rel_keep V then
+    match rel value with
+    | Panic p => if (p =? 20)%N then Ok value else Panic p
+    | r => r
+    end
+  else rel value.
 
 Definition is_some {A} (o : option A) : bool := match o with Some _ => true | None => false end.
 (* the sort_paragraphs closure of Control::wrap_and_sort *)
@@ -321,7 +342,7 @@ Definition control_order (a b : tree) : comparison :=
 
 (* Source::wrap_and_sort / Binary::wrap_and_sort *)
 Definition control_para_ws (rel : str -> res str) (ind : indentation) (iel : bool) (mll : option N) (p : tree) : res tree :=
-  para_ws ind iel mll None (Some (format_field rel)) p.
+  para_ws ind iel mll None (Some (format_field (rel_arm rel))) p.
 (* Control::wrap_and_sort *)
 Definition control_ws (rel : str -> res str) (ind : indentation) (iel : bool) (mll : option N) (t : tree) : res tree :=
   doc_ws (Some control_order) (Some (control_para_ws rel ind iel mll)) t.
